@@ -17,11 +17,11 @@ CHECKS = {
  "C01": ("dex/h-lib", "stateless exhaustive exploration (deviation-bounded DFS over task schedules and environment event orders) of a whole Watchexec instance with scripted filter verdicts; conservation oracle",
          "Every event script up to the length bound over 9 event classes (priority x verdict x emptiness), 1-2 producers, queue sizes {1,2,4096}, throttle {0,2}, sync and gated handlers, every order of sends / ticks / handler completions and every schedule within the deviation bound: the multiset of event ids seen by the handler equals the accepted deliverable ones, each in exactly one batch, never a rejected one, never an empty batch, filter never consulted for urgent/empty events.", "7 C01", DEX_NOTE + " Real inotify / poll-watcher delivery is outside any bounded exhaustive check (DESIGN.md section 10)."),
  "C02": ("dex/h-lib", "stateless exhaustive exploration of a whole Watchexec instance under virtual time; lower-bound oracle in every schedule, DebounceModel equality on the default schedule",
-         "Arrival patterns up to the length bound x throttle values (incl. 0 and run-time changes) x handler durations x every order of sends and ticks: no non-urgent batch before first-send + throttle in any schedule; on the default schedule batches and delivery ticks equal the executable DebounceModel (same-window events in one batch, urgent flushes unfiltered, rejected events do not postpone delivery).", "7 C02", DEX_NOTE),
+         "Arrival patterns up to the length bound x throttle values (incl. 0 and run-time changes) x handler durations x every order of sends and ticks: no non-urgent batch before first-send + throttle in any schedule; on the default schedule batches and delivery ticks equal the executable DebounceModel (same-window events in one batch, urgent flushes unfiltered, rejected events do not postpone delivery) or, failing that, satisfy the property's clauses directly (not before the window elapsed, at most one tick after it, in-window arrivals complete, urgent handed over at once); throttles that are not whole milliseconds included.", "7 C02, 14.3", DEX_NOTE),
  "C04": ("dex/h-supervisor", "stateless exhaustive exploration (deviation-bounded DFS over task schedules, select! branches and environment event orders) of the real job task with a simulated child",
          "Every control script up to the length bound (incl. the raw continue control), every child reaction class, every spawn/kill/signal/wait fault position, every order of sends / child exit / ticks, and every schedule within the deviation bound is executed on the real start_job task; a live-child counter is checked at every spawn and a spawn after an unreaped drop is a violation.", "7 C04", DEX_NOTE),
  "C06": ("dex/h-supervisor", "stateless exhaustive exploration of the real job task under virtual time, timed oracle on the simulated child's call log",
-         "Same exploration as C04 plus marker scripts behind a graceful control; timed rules: no kill before t0+grace in any schedule, killed and reaped at every quiescent instant past t0+grace, normal controls held until the child ended, exactly one replacement per graceful restart.", "7 C06", DEX_NOTE),
+         "Same exploration as C04 plus marker scripts behind a graceful control; timed rules: no kill before t0+grace in any schedule, killed and reaped at every quiescent instant past t0+grace, normal controls held until the child ended, exactly one replacement per graceful restart, and nothing is killed without having been sent the requested signal first (zero grace included).", "7 C06", DEX_NOTE),
  "C07": ("dex/h-supervisor", "stateless exhaustive exploration of the real job task; ticket deadlines checked at every quiescent instant; loom model checking of flag.rs",
          "Every ticket gets waiter task(s); at every quiescent instant of every explored execution the tickets that the documented semantics require to be resolved must have woken their waiters, including clones, shared job-gone flag, job termination by delete / delete_now / last handle dropped, and spawn/signal/kill/wait faults.", "7 C07", DEX_NOTE),
  "C09": ("dex/h-supervisor + stateright", "trace inclusion of every explored execution of the real job task in an executable reference model (state-set tracking per observation), the model itself exhaustively explored with stateright",
@@ -29,7 +29,7 @@ CHECKS = {
  "C10": ("dex/h-supervisor", "stateless exhaustive exploration of the real job task with marker closures at all three priorities probing pending higher-priority tickets",
          "Markers at normal / high / urgent priority, wait-for-end and delete-now from one or two senders, with and without an armed grace timer, as settled sends and bursts; per-sender per-priority order, at-most-once, and 'no control runs while a strictly higher-priority one is pending' are checked in every explored schedule.", "7 C10", DEX_NOTE + " High/urgent marker closures are sent through a cfg(watchexec_verif) seam (the public API only sends fixed controls at those priorities)."),
  "C11": ("enum/h-enum", "bounded-exhaustive enumeration of filterer configurations x probe events against a reference composition law and a metamorphic law",
-         "Every configuration of <=2 filters x ordered <=2 ignores (incl. negations) x extensions x whitelist x one ignore file over the glob grammar, each probed with 104 events (file/dir/unknown, inside/outside origin, 1- and 2-path, pathless): verdict equals the documented composition; adding a non-negated ignore never turns reject into pass.", "7 C11", ENUM_NOTE),
+         "Every configuration of <=2 filters x ordered <=2 ignores (incl. negations) x extensions x whitelist x one ignore file over the glob grammar, each probed with 104 events (file/dir/unknown, inside/outside origin, 1- and 2-path, pathless): verdict equals the documented composition; adding a non-negated ignore never turns reject into pass; every ordered whitelist of <=4 names whose byte order and path order disagree lets exactly the listed files through.", "7 C11", ENUM_NOTE),
  "C13": ("dex/h-lib", "stateless exhaustive exploration of the real fs worker with a recording / fault-injecting watcher; convergence oracle at every quiescent instant",
          "Every sequence of path-set / watcher-kind / unrelated configuration changes up to the length bound over a 3-path universe with recursion flags, issued directly, from inside the action handler or the error handler, at quiescence, under preemption, or in the middle of the previous apply (inside any watch/unwatch call), with watch/unwatch failures: at every quiescent instant the live watcher's registrations equal the configured set (appendix D), errors are reported once per failed call.", "7 C13, appendix D", DEX_NOTE + " Sequences dropping two paths at once are explored only without in-call landings (the worker iterates a randomly seeded HashSet)."),
  "C15": ("dex/h-lib", "stateless exhaustive exploration of a whole Watchexec instance with injected filter errors and watcher faults and scripted error-handler behaviours",
@@ -39,9 +39,9 @@ CHECKS = {
  "C17": ("enum/h-enum", "bounded-exhaustive enumeration of event batches against the EnvSummary laws",
          "All batches of <=2 of 440 event shapes (paths x file type x kinds over a universe with shared/disjoint prefixes, prefix-siblings, duplicates): every (event, path, kind) recoverable from its variable, no spurious entries, sorted + deduplicated, COMMON = longest common directory, simple format one line per (kind, path).", "7 C17", ENUM_NOTE),
  "C03": ("enum/h-enum", "bounded-exhaustive enumeration of ignore-file placements, contents, construction orders and read-completion orders against the IgnoreCompose reference model",
-         "One maximal tree with prefix-related sibling names; every placement of <=2 ignore files over 7 sites x a 20-line pattern grammar (negations, rooted, dir-only, **); every construction sequence (new / add_file / add_globs in every order that keeps same-site order, repeated construction) and every read-completion order (FIFO-controlled); 56 probes each through IgnoreFilterer::check_event / check_dir: verdict equals nearest-directory-first git-style composition and is identical across constructions.", "7 C03", ENUM_NOTE),
+         "One maximal tree with prefix-related sibling names; every placement of <=2 ignore files over 7 sites x a 20-line pattern grammar (negations, rooted, dir-only, **); every construction sequence (new / add_file / add_globs in every order that keeps same-site order, repeated construction) and every read-completion order (FIFO-controlled); 56 probes each through IgnoreFilterer::check_event / check_dir: verdict equals nearest-directory-first git-style composition and is identical across constructions, also when the same files are handed to GlobsetFilterer::new (the CLI's path; built four times per configuration).", "7 C03", ENUM_NOTE),
  "C05": ("dex/h-cli", "stateless exhaustive exploration of the CLI's real action handler (argv -> normalise -> make_config -> Watchexec) with a simulated command; FIFO and LIFO base policies",
-         "All four --on-busy-update modes and the -r / --signal shorthands x {postpone, stop-signal, stop-timeout 0, delay-run, debounce} x 1-3 change events x command reaction, every ENV order of changes / command exit / ticks and every schedule within the deviation bound under both base policies: runs never overlap, first run at start-up unless postponed, change while idle starts a run, do-nothing/queue never touch the running command, signal mode sends exactly the configured signal, restart kills only at the stop timeout, and in restart/queue modes a run starts after the last change.", "7 C05", DEX_NOTE),
+         "All four --on-busy-update modes and the -r / --signal shorthands x {postpone, stop-signal, stop-timeout 0, delay-run, debounce} x 1-3 change events x command reaction, every ENV order of changes / command exit / ticks and every schedule within the deviation bound under both base policies: runs never overlap, first run at start-up unless postponed, change while idle starts a run, do-nothing/queue never touch the running command, signal mode sends exactly the configured signal, restart kills only at the stop timeout, in restart/queue modes a run starts after the last change, and in no mode is a running command's handle dropped (killed without signal or reaping).", "7 C05", DEX_NOTE),
  "C08": ("dex/h-cli", "stateless exhaustive exploration of a whole Watchexec whose scripted action handler creates jobs in every state class and quits; and of the CLI's real handler under interrupt / terminate events",
          "7 job state classes (and all 49 pairs at the default schedule) x {abort, graceful 0, graceful 2} x child reaction x quit in the creating action or later; CLI: INT / TERM / INT batched with a change / mapped INT x stop-signal x stop-timeout: main ends at the next quiescent instant (abort) or by t_q + pending grace + grace + 1 tick (graceful), with Ok, no simulated process left unreaped/undropped, no late spawns; the CLI sends the configured stop signal first and never kills before the stop timeout.", "7 C08", DEX_NOTE + " Real process groups / grandchildren are outside the simulation (DESIGN.md section 10)."),
  "C12": ("enum/h-cli", "complete enumeration of the 64 ignore-flag combinations x explicit option sets through the CLI's real normalisation and filterer construction, against the documented source-attribution table",
@@ -53,7 +53,7 @@ CHECKS = {
  "C19": ("enum/h-enum", "complete enumeration of signal spellings, numbers and wait statuses against the documented tables",
          "Every valid signal number x {short, SIG-prefixed, number} x {lower, upper, mixed}, all Windows names, all exit codes 0..255, all terminating signals x core bit, --map-signal over the same spellings.", "7 C19", ENUM_NOTE),
  "C20": ("enum/h-enum", "bounded-exhaustive enumeration of directory chains and marker placements against the documented marker table",
-         "Chains of depth <=3 on tmpfs; 52 marker names + 6 decoys x {file, directory} x every level, all pairs in one directory, every start depth; all 22 project types: origins() = marked levels, types() = marker table, every type exactly one of VCS / software suite.", "7 C20", ENUM_NOTE),
+         "Chains of depth <=3 on tmpfs; 52 marker names + 6 decoys x {file, directory, FIFO, dangling symlink, symlink to a directory} x every level, all pairs in one directory, every start depth; all 22 project types: origins() = marked levels, types() = marker table, every type exactly one of VCS / software suite.", "7 C20", ENUM_NOTE),
 }
 
 NOT_YET = {}
